@@ -344,7 +344,19 @@ pub fn generate(seed: u64, n: usize, thorough: bool, corpus: Option<&str>) -> Ve
     //     domain bounds; the compiled models of s and format(s) are compared bit for bit
     let lits = ["3.141592653589793", "2.718281828459045", "0.1234567890123456", "0.30000000000000004", "1.0000000000000002",
                 "0.0000000000004", "0.000000000123", "0.00000000000001", "0.000000001", "123456789012.3456", "98765432109876.5",
-                "4503599627370497.5", "0.1", "2.50", "1.0", "100000000000000000000.0", "0.000001", "12.000000000001"];
+                "4503599627370497.5", "0.1", "2.50", "1.0", "100000000000000000000.0", "0.000001", "12.000000000001",
+                // the boundaries of the integer / decimal printing: 2^63 (= i64::MAX as f64) exactly, one ulp below and above,
+                // 2^53 and 2^53 + 1, written as decimals
+                "9223372036854775807.0", "9223372036854775808.0", "9223372036854775809.0", "9223372036854774784.0", "9223372036854777856.0",
+                "9007199254740992.0", "9007199254740993.0", "9007199254740991.0", "18446744073709551616.0", "4611686018427387904.0"];
+    // the same boundaries as INTEGER literals (read through i64) and negated
+    let int_lits = ["9223372036854775807", "9223372036854775806", "9007199254740992", "9007199254740993", "4611686018427387904", "1000000000000000000"];
+    for (i, l) in int_lits.iter().enumerate() {
+        let f = lits[lits.len() - 1 - (i % 10)];
+        push(program(&format!("min {}x - {} * y + -{}", l, f, l), &[format!("{} x + y >= -{}", l, f), format!("x - {} <= y * {}", f, l)], &["x", "y"], "Real"), "number-literals", &mut cases);
+        push(format!("max p * x + a[0] * y + b[1]\ns.t.\n    x + q * y <= a[1]\nwhere\n    let p = {}\n    let q = -{}\n    let a = [{}, {}]\n    let b = [{}, 1]\n    let c = [{}, {}]\ndefine\n    x as Real(-{}, {})\n    y as IntegerRange(-{}, {})\n",
+            l, f, f, "9223372036854775808.0", l, l, f, f, f, l, l), "number-literals", &mut cases);
+    }
     for (i, l) in lits.iter().enumerate() {
         let l2 = lits[(i + 5) % lits.len()];
         push(program(&format!("min {}x + {} * y - y / {}", l, l2, l), &[format!("{}x + y >= {}", l2, l), format!("x - {} <= y * {}", l, l2)], &["x", "y"], "Real"), "number-literals", &mut cases);
